@@ -143,8 +143,79 @@ class Accessor(Contract):
     def concretise(self, model, st):
         return None
 
+    # native side: real directories.  inputs["files"][i] in ("absent", "valid", "broken") is the state of the i-th candidate name
+    GEN = {"info": "composeinfo", "images": "images", "rpms": "rpms", "modules": "modules"}
+
+    def sample_inputs(self, rng):
+        import itertools
+        cands = ACCESSORS[self.acc][0]
+        for files in itertools.product(("absent", "valid", "broken"), repeat=len(cands)):
+            for sub in ("", "compose"):
+                yield {"files": list(files), "subdir": sub}
+
     def native_eval(self, inputs):
-        raise NotImplementedError
+        import shutil
+        import tempfile
+        from bounded import gen
+        cands, clskey, slot = ACCESSORS[self.acc]
+        cls = self.src.native_class(clskey)
+        d = tempfile.mkdtemp(prefix="c20_")
+        try:
+            base = os.path.join(d, inputs["subdir"]) if inputs["subdir"] else d
+            os.makedirs(os.path.join(base, "metadata"))
+            # composeinfo.json is what makes compose/ the preferred directory: always present there unless it is the candidate itself
+            texts = {}
+            for i, (cand, state) in enumerate(zip(cands, inputs["files"])):
+                obj = getattr(gen.G(self.src.mods, 11 + i), self.GEN[self.acc])()
+                obj = obj[0] if isinstance(obj, tuple) else obj
+                texts[cand] = obj.dumps()
+                if state == "valid":
+                    with open(os.path.join(base, cand), "w") as f:
+                        f.write(texts[cand])
+                elif state == "broken":
+                    with open(os.path.join(base, cand), "w") as f:
+                        f.write(texts[cand][:len(texts[cand]) // 2])          # truncated JSON: undecodable
+            if inputs["subdir"] and self.acc != "info":
+                ci = gen.G(self.src.mods, 3).composeinfo()
+                ci = ci[0] if isinstance(ci, tuple) else ci
+                ci.dump(os.path.join(base, "metadata", "composeinfo.json"))
+            elif inputs["subdir"] and inputs["files"][0] == "absent":
+                return ("skip", None), {}
+            nloads = [0]
+            real_load = cls.load
+
+            def counting(self_, *a, **k):
+                nloads[0] += 1
+                return real_load(self_, *a, **k)
+            cls.load = counting
+            try:
+                c = self.src.mods["compose"].Compose(d)
+
+                def run():
+                    first = getattr(c, self.acc)
+                    n1 = nloads[0]
+                    return first, getattr(c, self.acc), n1
+                nat = native_call(run)
+            finally:
+                cls.load = real_load
+            existing = [(cand, st_) for cand, st_ in zip(cands, inputs["files"]) if st_ != "absent"]
+            if nat[0] == "raise":
+                return nat, {"missing_or_undecodable_is_RuntimeError": nat[1] is RuntimeError if (not existing or existing[0][1] == "broken") else True,
+                             "undecodable_file_is_RuntimeError": nat[1] is RuntimeError if existing and existing[0][1] == "broken" else True,
+                             "RuntimeError_only_when_no_candidate_exists": (not existing or existing[0][1] == "broken") or nat[1] is not RuntimeError}
+            first, second, n1 = nat[1]
+            ok_first = bool(existing) and existing[0][1] == "valid" and isinstance(first, cls) and first.dumps() == texts[existing[0][0]]
+            return ("return", type(first).__name__), {
+                "loads_first_existing_candidate": ok_first,
+                "object_is_instance_of_the_metadata_class_loaded_from_that_file": isinstance(first, cls) and ok_first,
+                "loaded_once_then_reused": second is first and n1 == 1 and nloads[0] == 1}
+        finally:
+            shutil.rmtree(d, ignore_errors=True)
+
+    def describe(self, inputs):
+        cands = ACCESSORS[self.acc][0]
+        return "Compose(<dir>).%s with %s under <dir>/%s" % (self.acc, ", ".join("%s %s" % (c, s) for c, s in zip(cands, inputs["files"])),
+                                                          inputs["subdir"] or ".")
 
 
 def contracts(src, T):
